@@ -4095,6 +4095,13 @@ class FlowIR(object):
             if value is not None:
                 return int(value)
 
+        def text_to_bool(value):
+            # VV: bool("any non-empty text") is True. Parse text just like apply_replicate() does and leave
+            # references to variables as they are
+            if isinstance(value, string_types) and cls.is_var_reference(value) is False:
+                return {'true': True, 'false': False, 'y': True, 'n': False, 'yes': True, 'no': False}[value.lower()]
+            return bool(value)
+
         expected_types = {
             'command': {
                 'arguments': str,
@@ -4107,7 +4114,7 @@ class FlowIR(object):
             'workflowAttributes': {
                 'restartHookFile': str,
                 'replicate': int,
-                'aggregate': bool,
+                'aggregate': text_to_bool,
                 'isMigratable': bool,
                 'isMigrated': bool,
                 'repeatInterval': int,
